@@ -26,10 +26,10 @@ def sh(cmd, cwd=None, env=None, timeout=3600):
     return r.returncode, r.stdout
 
 
-def make_copy(dst):
+def make_copy(dst, commit="HEAD"):
     shutil.rmtree(dst, ignore_errors=True)
     os.makedirs(dst)
-    rc, out = sh("git -C %s archive HEAD | tar -x -C %s" % (REPO, dst))
+    rc, out = sh("git -C %s archive %s | tar -x -C %s" % (REPO, commit, dst))
     if rc != 0:
         raise RuntimeError(out)
 
@@ -54,7 +54,7 @@ def run_one(job):
     res = {"id": mid, "props": props, "desc": job.get("desc"), "control": job.get("control", False)}
     t0 = time.time()
     try:
-        make_copy(dst)
+        make_copy(dst, job.get("base_commit") or "HEAD")
         if kind == "catalogue":
             err = apply_catalogue(job["m"], job["helpers"], dst)
             if err:
@@ -110,7 +110,7 @@ def main():
                 continue
             mj = json.load(open(meta))
             props = mj.get("expected_checks") or [mj["property"]]
-            jobs.append({"id": d, "props": props, "kind": "seeded", "patch": os.path.join(root, d, "patch.diff"), "desc": mj.get("summary")})
+            jobs.append({"id": d, "props": props, "kind": "seeded", "patch": os.path.join(root, d, "patch.diff"), "desc": mj.get("summary"), "base_commit": mj.get("base_commit")})
     else:
         import catalogue
         for m in catalogue.M:
